@@ -93,6 +93,9 @@ type Plan struct {
 	// Twin: a second, independent GCPMultiEndpoint lives in the same process and
 	// the application uses the same context objects for RPCs on both
 	Twin bool `json:"twin,omitempty"`
+	// CfgKind: shape of the GRPCgcpConfig handed over (0 full, 1 no channel pool,
+	// 2 empty, 3 nil, 4 methods only)
+	CfgKind int `json:"cfg_kind,omitempty"`
 }
 
 //go:norace
@@ -138,6 +141,9 @@ func genOpts(r *rand.Rand, faults bool, timed bool) OptsSpec {
 //go:norace
 func Generate(r *rand.Rand, profile string, concurrent bool, avoid map[string]bool) *Plan {
 	p := &Plan{Profile: profile, Concurrent: concurrent, Verbose: r.IntN(8) == 0, OldCtor: r.IntN(6) == 0, Alias: !concurrent && r.IntN(4) == 0, Twin: !concurrent && r.IntN(5) == 0}
+	if r.IntN(3) == 0 {
+		p.CfgKind = 1 + r.IntN(4)
+	}
 	bad := profile == "gmebad"
 	p.Init = genOpts(r, bad && r.IntN(4) == 0, true)
 	if concurrent {
@@ -608,6 +614,20 @@ func (s *sim) run(src *simkit.Source, logOn bool) {
 	s.opIdx = -1
 	s.cfg = &pb.ApiConfig{ChannelPool: &pb.ChannelPoolConfig{MinSize: 2, MaxSize: 3, MaxConcurrentStreamsLowWatermark: 10},
 		Method: []*pb.MethodConfig{{Name: []string{"/svc/Bind"}, Affinity: &pb.AffinityConfig{Command: pb.AffinityConfig_BIND, AffinityKey: "name"}}}}
+	switch s.plan.CfgKind {
+	case 1: // no channel-pool section
+		s.cfg.ChannelPool = nil
+	case 2: // empty message
+		s.cfg = &pb.ApiConfig{}
+	case 3: // no configuration object at all
+		s.cfg = nil
+	case 4: // method entries only, one of them without an affinity section
+		s.cfg.ChannelPool = nil
+		s.cfg.Method = append(s.cfg.Method, &pb.MethodConfig{Name: []string{"/svc/A", "/svc/B"}})
+	}
+	if s.plan.CfgKind != 0 {
+		s.res.Count("fault:unusual_pool_config_shape", 1)
+	}
 	s.cfgSnap = proto.Clone(s.cfg).(*pb.ApiConfig)
 
 	// construction
@@ -1312,8 +1332,13 @@ func (s *sim) configCheck() {
 			verdict = "not-equal"
 			return
 		}
-		got.ChannelPool.MaxSize = 99
-		got.Method = nil
+		if got != nil {
+			if got.ChannelPool == nil {
+				got.ChannelPool = &pb.ChannelPoolConfig{}
+			}
+			got.ChannelPool.MaxSize = 99
+			got.Method = nil
+		}
 		if again := s.gme.GCPConfig(); !proto.Equal(again, s.cfgSnap) {
 			verdict = "aliased-returned"
 			return
@@ -1333,6 +1358,13 @@ func (s *sim) configCheck() {
 		return
 	}
 	// the caller keeps mutating its own object
+	if s.cfg == nil {
+		return
+	}
+	hadPool := s.cfg.ChannelPool != nil
+	if !hadPool {
+		s.cfg.ChannelPool = &pb.ChannelPoolConfig{}
+	}
 	s.cfg.ChannelPool.MinSize++
 	c = s.call("GCPConfig", 0, func() {
 		if again := s.gme.GCPConfig(); !proto.Equal(again, s.cfgSnap) {
@@ -1341,6 +1373,9 @@ func (s *sim) configCheck() {
 	})
 	s.k.Quiesce()
 	s.cfg.ChannelPool.MinSize--
+	if !hadPool {
+		s.cfg.ChannelPool = nil
+	}
 	if s.panicked(c, "GCPConfig") {
 		return
 	}
